@@ -292,10 +292,11 @@ class PathToken(TokenT):
             or (len(self.path) == 1 and root in RESERVED_WORDS)
         ):
             buf = [f"[{_quote(root)}]"]
-        elif isinstance(root, PathToken):
-            buf = [f"[{root}]"]
+        elif isinstance(root, str):
+            buf = [root]
         else:
-            buf = [str(root)]
+            # A nested path or an integer index.
+            buf = [f"[{root}]"]
         for segment in it:
             if isinstance(segment, PathToken):
                 buf.append(f"[{segment}]")
